@@ -4,6 +4,7 @@ import (
 	"bytes"
 	"encoding/json"
 	"fmt"
+	"github.com/jsightapi/jsight-schema-core/fs"
 	"os"
 	"strings"
 	"unicode/utf8"
@@ -402,7 +403,40 @@ func checkC06(src projSrc, k int) (sig, what string) {
 			return "c06:run-to-run-" + first.res, fmt.Sprintf("build %d of the same project differs from the first: %.300s  vs  %.300s", i+1, diffSnippet(first.data, o.data), diffSnippet(o.data, first.data))
 		}
 	}
+	// the caller may also hand the very same file object to several builds (kit.NewJApiFromFile): a build must not
+	// leave anything behind in it
+	if first.res != "panic" {
+		name, text := "root.jst", src.text
+		if src.path != "" {
+			b, err := os.ReadFile(src.path)
+			if err != nil {
+				return "", ""
+			}
+			name, text = src.path, string(b)
+		}
+		f := fs.NewFile(name, text)
+		for i := 0; i < 2; i++ {
+			o := outcomeOfFile(f)
+			if o != first {
+				return "c06:same-file-object-" + first.res, fmt.Sprintf("build %d from one and the same file object differs from the build of a fresh one: %.300s  vs  %.300s", i+1, diffSnippet(first.data, o.data), diffSnippet(o.data, first.data))
+			}
+		}
+	}
 	return "", ""
+}
+
+func outcomeOfFile(f *fs.File) (o outcome) {
+	defer func() {
+		if r := recover(); r != nil {
+			o = outcome{"panic", "panic: " + fmt.Sprint(r)}
+		}
+	}()
+	j, je := kit.NewJApiFromFile(f)
+	if je != nil {
+		return outcome{"err", fmt.Sprintf("%s|%s|%d|%d|%d|%s", je.Msg, je.File.Name(), je.Index, je.Line, je.Column, je.Error())}
+	}
+	b, es := wrapBytes(j.ToJson)
+	return outcome{"ok", string(b) + es}
 }
 
 func diffSnippet(a, b string) string {
